@@ -500,18 +500,28 @@ impl World {
     fn reuse_ok(&self, st: &St, id: u64) -> bool {
         // duplicates sent while the id was in flight are ignored by the channel: they neither
         // extend nor shorten the time the id is in flight
-        let earlier: Vec<&(u64, u32, i64)> = st.sent_reqs.iter().filter(|r| r.0 == id && !st.ignored_dups.contains(&r.1)).collect();
-        if earlier.is_empty() {
+        // A duplicate that the peer sent while the id was in flight is expected to be ignored - but
+        // if the original completed before the channel READ the duplicate, the channel took it for
+        // a new request and handed it to the application: then it is one. And while such a
+        // duplicate is still unread nobody knows yet which of the two it will be: no reuse until
+        // it has been read.
+        if self.core.borrow().inbox.iter().any(|it| matches!(it, InItem::Item(ClientMessage::Request(r)) if r.id == id && st.ignored_dups.contains(&r.message))) {
+            return false;
+        }
+        let truly_ignored = |p: &u32| st.ignored_dups.contains(p) && !st.started_payloads.contains(p);
+        let all: Vec<&(u64, u32, i64)> = st.sent_reqs.iter().filter(|r| r.0 == id && !truly_ignored(&r.1)).collect();
+        if all.is_empty() {
             return true;
         }
-        let answered = self
-            .core
-            .borrow()
-            .wire
-            .iter()
-            .filter(|m| matches!(m, Msg::Resp { id: rid, .. } if *rid == id))
-            .count();
-        if answered == earlier.len() {
+        // instances that have been answered (responses carry the handler's token; refusals carry none)
+        let (by_token, refusals) = {
+            let c = self.core.borrow();
+            let by_token: Vec<u32> = all.iter().map(|r| r.1).filter(|p| c.wire.iter().any(|m| matches!(m, Msg::Resp { id: rid, body: Ok(t) } if *rid == id && *t == 5000 + *p))).collect();
+            let refusals = c.wire.iter().filter(|m| matches!(m, Msg::Resp { id: rid, body: Err(_) } if *rid == id)).count();
+            (by_token, refusals)
+        };
+        let earlier: Vec<&(u64, u32, i64)> = all.iter().copied().filter(|r| !by_token.contains(&r.1)).collect();
+        if earlier.len() <= refusals {
             return true;
         }
         let now = self.now_ms();
@@ -543,10 +553,17 @@ impl World {
     fn note_reuse(&self, st: &mut St, id: u64, new_payload: u32) {
         let now = self.now_ms();
         let cancelled = st.cancels_sent.get(&id).copied().unwrap_or(0) > 0;
-        let earlier: Vec<(u64, u32, i64)> = st.sent_reqs.iter().filter(|r| r.0 == id && !st.ignored_dups.contains(&r.1)).cloned().collect();
+        let truly_ignored = |p: &u32| st.ignored_dups.contains(p) && !st.started_payloads.contains(p);
+        let all: Vec<(u64, u32, i64)> = st.sent_reqs.iter().filter(|r| r.0 == id && !truly_ignored(&r.1)).cloned().collect();
+        let (by_token, refusals) = {
+            let c = self.core.borrow();
+            let by_token: Vec<u32> = all.iter().map(|r| r.1).filter(|p| c.wire.iter().any(|m| matches!(m, Msg::Resp { id: rid, body: Ok(t) } if *rid == id && *t == 5000 + *p))).collect();
+            let refusals = c.wire.iter().filter(|m| matches!(m, Msg::Resp { id: rid, body: Err(_) } if *rid == id)).count();
+            (by_token, refusals)
+        };
+        let earlier: Vec<(u64, u32, i64)> = all.iter().cloned().filter(|r| !by_token.contains(&r.1)).collect();
         let in_flight = !cancelled && earlier.iter().all(|(_, p, d)| *d > now && !st.app_dropped.contains(p));
-        let answered = self.core.borrow().wire.iter().filter(|m| matches!(m, Msg::Resp { id: rid, .. } if *rid == id)).count();
-        if !earlier.is_empty() && answered < earlier.len() && in_flight {
+        if earlier.len() > refusals && in_flight {
             st.ignored_dups.insert(new_payload);
         }
         if !in_flight {
